@@ -202,6 +202,9 @@ class Connection:
 
     def resume_writing(self) -> None:
         self.write_ready.set()
+        # frames queued in h2 while writing was paused (reset_nowait)
+        if not self.is_closing():
+            self.flush()
 
     def create_stream(
         self,
